@@ -32,6 +32,8 @@ type Config struct {
 	Shard  int        `json:"shard"`
 	Batch  int        `json:"batch"`
 	Codec  string     `json:"codec"`
+	// ZeroIDs: the first node and the first relationship of the first graph have database id 0 (Neo4j numbers from 0)
+	ZeroIDs bool `json:"zero_ids,omitempty"`
 }
 
 var nodeOffsets = []int{5, 9, 14, 20, 21, 33, 47, 48}
@@ -40,6 +42,10 @@ var edgeOffsets = []int{503, 508, 509, 515, 530, 531}
 func (c Config) nodeIDs(gi int) []int {
 	out := []int{}
 	for i := 0; i < c.Graphs[gi].Nodes; i++ {
+		if c.ZeroIDs && gi == 0 && i == 0 {
+			out = append(out, 0)
+			continue
+		}
 		out = append(out, gi*1000+nodeOffsets[i])
 	}
 	return out
@@ -51,6 +57,10 @@ func (c Config) edgeIDs(gi int) []int {
 		return out
 	}
 	for i := 0; i < c.Graphs[gi].Edges; i++ {
+		if c.ZeroIDs && gi == 0 && i == 0 {
+			out = append(out, 0)
+			continue
+		}
 		out = append(out, gi*1000+edgeOffsets[i])
 	}
 	return out
